@@ -100,6 +100,8 @@ Proof.
   - apply Forall_forall. intros c Hc. rewrite in_map_iff in Hc. destruct Hc as (b & <- & Hin).
     unfold labels. cbn [atoms writer_bond fst snd]. rewrite writer_labels.
     destruct (Hb b Hin) as (_ & Hu & Hv). split; assumption.
+  - apply Forall_forall. intros c Hc. rewrite in_map_iff in Hc. destruct Hc as (b & <- & Hin).
+    cbn [writer_bond fst snd]. exact (proj1 (Hb b Hin)).
 Qed.
 
 Theorem written_ok s g w : ref_parse s = inr g -> to_writer_graph g = Some w -> WriterProofs.mol_ok w.
